@@ -18,6 +18,15 @@ type ZBadCplx struct {
 	A int32
 }
 
+type ZV1 struct {
+	A int32
+}
+
+type ZV2 struct {
+	A int32
+	C interface{}
+}
+
 type ZHolder struct {
 	Name  string
 	Items []interface{}
@@ -42,7 +51,19 @@ func H_C13_unsupported() {
 	bad := vBadValue(kind)
 	x := vInt32("x")
 	var v interface{}
-	switch vChoice("position", 12) {
+	pos := vChoice("position", 15)
+	sharedName := false
+	switch pos {
+	case 12: // two Go types registered under one remote class name; the second one holds the bad value
+		v = []interface{}{&ZV1{A: x}, &ZV2{A: 2, C: bad}}
+		sharedName = true
+	case 13: // the same, other order
+		v = []interface{}{&ZV2{A: x, C: int32(1)}, &ZV1{A: 3}, &ZV2{A: 2, C: bad}}
+		sharedName = true
+	case 14: // anonymous structs all share the empty class name
+		v = struct{ In interface{} }{In: struct{ C interface{} }{C: bad}}
+	}
+	switch pos {
 	case 0:
 		v = bad
 	case 1:
@@ -79,6 +100,10 @@ func H_C13_unsupported() {
 		v = map[string]interface{}{"outer": map[string]interface{}{"inner": []interface{}{bad}}}
 	}
 	_, nameMap := vExtract(v)
+	if sharedName {
+		nameMap["ZV1"] = "remote.V"
+		nameMap["ZV2"] = "remote.V"
+	}
 	bs, err := ToBytes(v, nameMap)
 	if err == nil {
 		// success is only acceptable for a well-formed stream; for these values nothing well-formed denotes them
